@@ -8,15 +8,6 @@ namespace Dulwich.Lock
 
 /-! ## what the proofs need of a program -/
 
-def hasFclose (l : List (PreCall × Bool)) : Bool := l.any (fun p => p.1 == .fclose)
-
-/-- decidable well-behavedness of a `_GitFile` program: exclusive create, both `_closed` guards,
-`_closed = True` right after the rename, abort() unlinks, the file object is closed before the
-rename. -/
-def Program.wellBehaved (P : Program) : Bool :=
-  P.openExcl && P.guardClose && P.markClosedOnReplace && P.guardAbort && P.abortRemoves
-    && hasFclose P.closePre
-
 structure WB (P : Program) : Prop where
   openExcl : P.openExcl = true
   guardClose : P.guardClose = true
@@ -655,32 +646,167 @@ theorem settle_withBody_nil (P : Program) (a : Actor) (hc : a.closed = false) :
     settle P a (withBody []) = enterClose { a with todo := [] } P.closePre := by
   simp [withBody, settle, hc]
 
-/-- where a `with GitFile(f,"wb") as h: for d in ds: h.write(d)` caller can be -/
-inductive Phase (ds : List Bytes) (a : Actor) : Prop where
+/-- in close(), the pending call and every later call before the rename sit inside the
+`try … finally: self.abort()` -/
+def PreInTry (a : Actor) : Prop :=
+  match a.pc with
+  | .pre _ t rest => t = true ∧ rest.all (fun p => p.2) = true
+  | _ => True
+
+theorem enterClose_preInTry (a : Actor) (l : List (PreCall × Bool))
+    (hl : l.all (fun p => p.2) = true) : PreInTry (enterClose a l) := by
+  induction l generalizing a with
+  | nil => simp [enterClose, PreInTry]
+  | cons p rest ih =>
+    obtain ⟨c, t⟩ := p
+    simp only [List.all_cons, Bool.and_eq_true] at hl
+    obtain ⟨ht, hr⟩ := hl
+    cases c <;> simp only [enterClose]
+    · exact ⟨ht, hr⟩
+    · split
+      · exact ⟨ht, hr⟩
+      · exact ih a hr
+    · exact ih _ hr
+    · split
+      · exact ⟨ht, hr⟩
+      · exact ih a hr
+    · split
+      · exact ⟨ht, hr⟩
+      · exact ih a hr
+
+theorem settle_preInTry (P : Program) (hall : P.closePre.all (fun p => p.2) = true) (a : Actor)
+    (l : List Op) : PreInTry (settle P a l) := by
+  induction l generalizing a with
+  | nil => simp [settle, PreInTry]
+  | cons o rest ih =>
+    cases o <;> simp only [settle]
+    · simp [PreInTry]
+    · split
+      · exact ih a
+      · exact enterClose_preInTry _ _ hall
+    · split
+      · exact ih a
+      · split
+        · simp [PreInTry]
+        · exact ih _
+
+theorem raise_preInTry (P : Program) (hall : P.closePre.all (fun p => p.2) = true) (a : Actor)
+    (l : List Op) : PreInTry (raise P a l) := by
+  unfold raise; split
+  · simp [PreInTry]
+  · exact settle_preInTry P hall _ _
+
+theorem afterClose_preInTry (P : Program) (hall : P.closePre.all (fun p => p.2) = true) (a : Actor)
+    (p : Bool) : PreInTry (afterClose P a p) := by
+  unfold afterClose; split
+  · exact raise_preInTry P hall _ _
+  · exact settle_preInTry P hall _ _
+
+theorem abortInClose_preInTry (P : Program) (hall : P.closePre.all (fun p => p.2) = true)
+    (a : Actor) (p : Bool) : PreInTry (abortInClose P a p) := by
+  unfold abortInClose; split
+  · exact afterClose_preInTry P hall _ _
+  · split
+    · simp [PreInTry]
+    · exact afterClose_preInTry P hall _ _
+
+theorem preFail_preInTry (P : Program) (hall : P.closePre.all (fun p => p.2) = true) (a : Actor)
+    (t : Bool) : PreInTry (preFail P a t) := by
+  unfold preFail; split
+  · exact abortInClose_preInTry P hall _ _
+  · exact raise_preInTry P hall _ _
+
+theorem actorStep_preInTry (P : Program) (hall : P.closePre.all (fun p => p.2) = true) {a : Actor}
+    (lt f : Bool) (h : PreInTry a) : PreInTry (actorStep P a lt f).1 := by
+  cases hpc : a.pc with
+  | done => simp only [actorStep, hpc]; exact h
+  | start =>
+    simp only [actorStep, hpc]
+    split
+    · simp [PreInTry]
+    · split
+      · simp [PreInTry]
+      · exact settle_preInTry P hall _ _
+  | wr d =>
+    simp only [actorStep, hpc]
+    split
+    · exact raise_preInTry P hall _ _
+    · split
+      · exact raise_preInTry P hall _ _
+      · exact settle_preInTry P hall _ _
+  | pre c t rest =>
+    have hr : rest.all (fun p => p.2) = true := by
+      unfold PreInTry at h; rw [hpc] at h; exact h.2
+    simp only [actorStep, hpc]
+    split
+    · exact preFail_preInTry P hall _ _
+    · cases c <;> simp only
+      · split
+        · exact preFail_preInTry P hall _ _
+        · exact enterClose_preInTry _ _ hr
+      · exact enterClose_preInTry _ _ hr
+      · exact enterClose_preInTry _ _ hr
+      · split
+        · exact enterClose_preInTry _ _ hr
+        · exact preFail_preInTry P hall _ _
+      · split
+        · exact enterClose_preInTry _ _ hr
+        · exact preFail_preInTry P hall _ _
+  | replace =>
+    simp only [actorStep, hpc]
+    split
+    · split
+      · exact abortInClose_preInTry P hall _ _
+      · exact raise_preInTry P hall _ _
+    · split
+      · split
+        · exact abortInClose_preInTry P hall _ _
+        · exact raise_preInTry P hall _ _
+      · simp only
+        split
+        · exact abortInClose_preInTry P hall _ _
+        · exact settle_preInTry P hall _ _
+  | rmClose p =>
+    simp only [actorStep, hpc]
+    split
+    · exact raise_preInTry P hall _ _
+    · exact afterClose_preInTry P hall _ _
+  | rmAbort =>
+    simp only [actorStep, hpc]
+    split
+    · simp [PreInTry]
+    · exact settle_preInTry P hall _ _
+
+/-- where a `with GitFile(f,"wb") as h: for d in ds: h.write(d)` caller can be.  `G` is a side
+condition on the program ("every failure inside close() is followed by abort()"); with `G := False`
+nothing is assumed. -/
+inductive Phase (G : Prop) (ds : List Bytes) (a : Actor) : Prop where
   | start : a.pc = .start → a.inHandler = false → a.todo = withBody ds → a.written = [] →
-      a.committed = none → Phase ds a
+      a.committed = none → Phase G ds a
   | writing (pre : List Bytes) (d : Bytes) (post : List Bytes) : a.pc = .wr d → a.inHandler = false →
       ds = pre ++ d :: post → a.written = pre.flatten → a.todo = withBody post →
-      a.committed = none → a.closed = false → Phase ds a
+      a.committed = none → a.closed = false → Phase G ds a
   | closing : (a.pc = .replace ∨ ∃ c t r, a.pc = .pre c t r) → a.inHandler = false →
-      a.written = ds.flatten → a.todo = [] → a.committed = none → Phase ds a
+      a.written = ds.flatten → a.todo = [] → a.committed = none → Phase G ds a
   | failedRm : a.pc = .rmClose true → a.inHandler = false → a.todo = [] → a.committed = none →
-      Phase ds a
+      Phase G ds a
   | handler : a.inHandler = true → a.todo = [] → a.committed = none →
       (a.pc = .rmAbort ∨
-        (a.pc = .done ∧ (a.hC = [.abort] → a.closed = true ∨ a.rmFailed = true))) → Phase ds a
+        (a.pc = .done ∧ ((a.hC = [.abort] ∨ G) → a.closed = true ∨ a.rmFailed = true))) →
+      Phase G ds a
   | finished : a.pc = .done → a.inHandler = false → a.todo = [] →
       (a.committed = none ∨ a.committed = some ds.flatten) →
-      (a.opened = true → a.closed = true) → Phase ds a
+      (a.opened = true → a.closed = true) → Phase G ds a
 
 /-- configuration of a with-caller: abort() when write() raises; nothing, or (finalised handle)
 abort(), when close() raises -/
 def WithCfg (a : Actor) : Prop := a.hW = [.abort] ∧ (a.hC = [] ∨ a.hC = [.abort])
 
-theorem raise_handler {P : Program} (hP : WB P) (ds : List Bytes) {a : Actor} {h : List Op}
-    (hi : a.inHandler = false) (hh : h = [] ∨ h = [.abort]) (hc : a.committed = none)
-    (hhc : h = a.hW ∨ h = a.hC) (hw : a.hW = [.abort]) :
-    Phase ds (raise P a h) := by
+theorem raise_handler {P : Program} (hP : WB P) (G : Prop) (ds : List Bytes) {a : Actor}
+    {h : List Op} (hi : a.inHandler = false) (hh : h = [] ∨ h = [.abort]) (hc : a.committed = none)
+    (hhc : h = a.hW ∨ h = a.hC) (hw : a.hW = [.abort])
+    (hg : G → h = [] → a.closed = true ∨ a.rmFailed = true) :
+    Phase G ds (raise P a h) := by
   unfold raise
   rw [hi]
   simp only [Bool.false_eq_true, if_false]
@@ -688,9 +814,11 @@ theorem raise_handler {P : Program} (hP : WB P) (ds : List Bytes) {a : Actor} {h
   · subst hh
     refine Phase.handler rfl rfl hc (Or.inr ⟨rfl, ?_⟩)
     intro habs
-    rcases hhc with e | e
-    · rw [hw] at e; simp at e
-    · simp only [settle] at habs; rw [← e] at habs; simp at habs
+    rcases habs with habs | g
+    · rcases hhc with e | e
+      · rw [hw] at e; simp at e
+      · simp only [settle] at habs; rw [← e] at habs; simp at habs
+    · exact hg g rfl
   · subst hh
     simp only [settle, hP.guardAbort, hP.abortRemoves, Bool.true_and, if_true]
     split
@@ -698,29 +826,34 @@ theorem raise_handler {P : Program} (hP : WB P) (ds : List Bytes) {a : Actor} {h
       exact Phase.handler rfl rfl hc (Or.inr ⟨rfl, fun _ => Or.inl hcl⟩)
     · exact Phase.handler rfl rfl hc (Or.inl rfl)
 
-theorem phase_enterClose (ds : List Bytes) {a : Actor} (l : List (PreCall × Bool))
+theorem phase_enterClose (G : Prop) (ds : List Bytes) {a : Actor} (l : List (PreCall × Bool))
     (hi : a.inHandler = false) (hw : a.written = ds.flatten) (ht : a.todo = [])
-    (hc : a.committed = none) : Phase ds (enterClose a l) := by
+    (hc : a.committed = none) : Phase G ds (enterClose a l) := by
   obtain ⟨h1, h2, h3, _⟩ := enterClose_shape a l
   exact Phase.closing h1 (h3.trans hi) ((enterClose_written a l).trans hw) (h2.trans ht)
     ((enterClose_committed a l).trans hc)
 
-theorem phase_settle_withBody {P : Program} (ds pre post : List Bytes) {a : Actor}
+theorem phase_settle_withBody {P : Program} (G : Prop) (ds pre post : List Bytes) {a : Actor}
     (hd : ds = pre ++ post) (hi : a.inHandler = false) (hw : a.written = pre.flatten)
-    (hc : a.committed = none) (hcl : a.closed = false) : Phase ds (settle P a (withBody post)) := by
+    (hc : a.committed = none) (hcl : a.closed = false) :
+    Phase G ds (settle P a (withBody post)) := by
   cases post with
   | nil =>
     rw [settle_withBody_nil P a hcl]
-    exact phase_enterClose ds _ hi (by simpa [hd] using hw) rfl hc
+    exact phase_enterClose G ds _ hi (by simpa [hd] using hw) rfl hc
   | cons d post =>
     rw [settle_withBody_cons]
     exact Phase.writing pre d post rfl hi hd hw rfl hc hcl
 
 /-- the control-flow invariant of a with-caller is preserved by each of its system calls -/
-theorem actorStep_Phase {P : Program} (hP : WB P) (ds : List Bytes) {a : Actor} (lt f : Bool)
-    (hl : LInv a) (hcfg : WithCfg a) (h : Phase ds a) : Phase ds (actorStep P a lt f).1 := by
+theorem actorStep_Phase {P : Program} (hP : WB P) (G : Prop) (ds : List Bytes) {a : Actor}
+    (lt f : Bool) (hl : LInv a) (hcfg : WithCfg a)
+    (hG : G → P.finallyAbort = true ∧ PreInTry a) (h : Phase G ds a) :
+    Phase G ds (actorStep P a lt f).1 := by
   obtain ⟨hW, hCc⟩ := hcfg
   have hC' : ∀ x : List Op, x = a.hC → x = [] ∨ x = [.abort] := fun x e => e ▸ hCc
+  have hgW : G → a.hW = [] → a.closed = true ∨ a.rmFailed = true :=
+    fun _ e => by rw [hW] at e; simp at e
   cases h with
   | start hpc hi ht hw hc =>
     have hn := hl.noHandle_of_start hpc
@@ -730,15 +863,15 @@ theorem actorStep_Phase {P : Program} (hP : WB P) (ds : List Bytes) {a : Actor} 
     · split
       · exact Phase.finished rfl hi rfl (Or.inl hc) (fun h1 => by simp [hn.1] at h1)
       · rw [ht]
-        exact phase_settle_withBody ds [] ds rfl hi (by simpa using hw) hc hn.2.2.1
+        exact phase_settle_withBody G ds [] ds rfl hi (by simpa using hw) hc hn.2.2.1
   | writing pre d post hpc hi hd hw ht hc hcl =>
     simp only [actorStep, hpc]
     split
-    · exact raise_handler hP ds hi (Or.inr hW) hc (Or.inl rfl) hW
+    · exact raise_handler hP G ds hi (Or.inr hW) hc (Or.inl rfl) hW hgW
     · split
-      · exact raise_handler hP ds hi (Or.inr hW) hc (Or.inl rfl) hW
+      · exact raise_handler hP G ds hi (Or.inr hW) hc (Or.inl rfl) hW hgW
       · rw [ht]
-        exact phase_settle_withBody ds (pre ++ [d]) post (by simp [hd]) hi (by simp [hw]) hc hcl
+        exact phase_settle_withBody G ds (pre ++ [d]) post (by simp [hd]) hi (by simp [hw]) hc hcl
   | closing hpc hi hw ht hc =>
     have hr := hl.run_of_pc (by rcases hpc with e | ⟨_, _, _, e⟩ <;> simp [e])
       (by rcases hpc with e | ⟨_, _, _, e⟩ <;> simp [e])
@@ -748,29 +881,24 @@ theorem actorStep_Phase {P : Program} (hP : WB P) (ds : List Bytes) {a : Actor} 
     have hcl : a.closed = false := by
       have := hr.1.owns_eq; rw [hown] at this
       cases hx : a.closed <;> simp [hx] at this ⊢
-    have hfail : ∀ t, Phase ds (preFail P a t) := by
-      intro t
-      unfold preFail
-      split
-      · unfold abortInClose
-        simp only [hcl, Bool.and_false, Bool.false_eq_true, if_false, hP.abortRemoves, if_true]
-        exact Phase.failedRm rfl hi ht hc
-      · exact raise_handler hP ds hi (hC' _ rfl) hc (Or.inr rfl) hW
     rcases hpc with hpc | ⟨c, t, r, hpc⟩
     · -- replace
       simp only [actorStep, hpc]
-      have hfin : Phase ds (if P.finallyAbort = true then abortInClose P a true else raise P a a.hC) := by
+      have hfin : Phase G ds
+          (if P.finallyAbort = true then abortInClose P a true else raise P a a.hC) := by
         split
         · unfold abortInClose
           simp only [hcl, Bool.and_false, Bool.false_eq_true, if_false, hP.abortRemoves, if_true]
           exact Phase.failedRm rfl hi ht hc
-        · exact raise_handler hP ds hi (hC' _ rfl) hc (Or.inr rfl) hW
+        · rename_i hnf
+          exact raise_handler hP G ds hi (hC' _ rfl) hc (Or.inr rfl) hW
+            (fun g _ => absurd (hG g).1 hnf)
       split
       · exact hfin
       · split
         · exact hfin
         · simp only [hP.mark, Bool.or_true]
-          have hdone : ∀ pc', Phase ds
+          have hdone : ∀ pc', Phase G ds
               (settle P { a with pc := pc', owns := false, committed := some a.written,
                                  closed := true } a.todo) := by
             intro pc'
@@ -782,28 +910,40 @@ theorem actorStep_Phase {P : Program} (hP : WB P) (ds : List Bytes) {a : Actor} 
             exact hdone _
           · exact hdone _
     · -- a call of close() before the rename
+      have hpre : G → t = true := by
+        intro g
+        have := (hG g).2; unfold PreInTry at this; rw [hpc] at this; exact this.1
+      have hfail : Phase G ds (preFail P a t) := by
+        unfold preFail
+        split
+        · unfold abortInClose
+          simp only [hcl, Bool.and_false, Bool.false_eq_true, if_false, hP.abortRemoves, if_true]
+          exact Phase.failedRm rfl hi ht hc
+        · rename_i hnt
+          exact raise_handler hP G ds hi (hC' _ rfl) hc (Or.inr rfl) hW
+            (fun g _ => absurd (hpre g) hnt)
       simp only [actorStep, hpc]
       split
-      · exact hfail t
+      · exact hfail
       · cases c <;> simp only
         · split
-          · exact hfail t
-          · exact phase_enterClose ds _ hi hw ht hc
-        · exact phase_enterClose ds _ hi hw ht hc
-        · exact phase_enterClose ds _ hi hw ht hc
+          · exact hfail
+          · exact phase_enterClose G ds _ hi hw ht hc
+        · exact phase_enterClose G ds _ hi hw ht hc
+        · exact phase_enterClose G ds _ hi hw ht hc
         · split
-          · exact phase_enterClose ds _ hi hw ht hc
-          · exact hfail t
+          · exact phase_enterClose G ds _ hi hw ht hc
+          · exact hfail
         · split
-          · exact phase_enterClose ds _ hi hw ht hc
-          · exact hfail t
+          · exact phase_enterClose G ds _ hi hw ht hc
+          · exact hfail
   | failedRm hpc hi ht hc =>
     simp only [actorStep, hpc]
     split
-    · exact raise_handler hP ds hi (hC' _ rfl) hc (Or.inr rfl) hW
+    · exact raise_handler hP G ds hi (hC' _ rfl) hc (Or.inr rfl) hW (fun _ _ => Or.inr rfl)
     · unfold afterClose
       simp only [if_true]
-      exact raise_handler hP ds hi (hC' _ rfl) hc (Or.inr rfl) hW
+      exact raise_handler hP G ds hi (hC' _ rfl) hc (Or.inr rfl) hW (fun _ _ => Or.inl rfl)
   | handler hi ht hc hpc =>
     rcases hpc with hpc | ⟨hpc, hrel⟩
     · simp only [actorStep, hpc]
@@ -855,19 +995,32 @@ theorem withCaller_cfg (fs pm : Bool) (ds : List Bytes) (fin : Bool) :
   refine ⟨by simp [withCaller, Actor.init, Gen.Lock.exitAbortsOnException], ?_⟩
   cases fin <;> simp [withCaller, Actor.init, Gen.Lock.delAborts]
 
-theorem withCaller_phase (fs pm : Bool) (ds : List Bytes) (fin : Bool) :
-    Phase ds (withCaller fs pm ds fin) :=
+theorem withCaller_phase (G : Prop) (fs pm : Bool) (ds : List Bytes) (fin : Bool) :
+    Phase G ds (withCaller fs pm ds fin) :=
   Phase.start rfl rfl rfl rfl rfl
 
-/-- everything we know about a with-caller in a reachable state -/
-theorem reach_with {P : Program} (hP : WB P) {s0 s : State} (h0 : Initial s0) (i : Nat)
+theorem reach_preInTry {P : Program} (hall : P.closePre.all (fun p => p.2) = true) {s0 s : State}
+    (h0 : Initial s0) (h : Reach P s0 s) (i : Nat) : PreInTry (s.actors i) := by
+  induction h with
+  | init =>
+    obtain ⟨f, p, b, hW, hC, e⟩ := h0.fresh i
+    rw [e]; simp [PreInTry, Actor.init]
+  | step s j f _ ih =>
+    by_cases hji : i = j
+    · subst hji; rw [step_actor_self]; exact actorStep_preInTry P hall _ _ ih
+    · rw [step_actor_other _ _ _ hji]; exact ih
+
+/-- everything we know about a with-caller in a reachable state (`G` may only be assumed when the
+program aborts on every failure inside close()) -/
+theorem reach_with {P : Program} (hP : WB P) (G : Prop)
+    (hG : G → P.abortsOnAnyCloseFailure = true) {s0 s : State} (h0 : Initial s0) (i : Nat)
     {fs pm fin : Bool} {ds : List Bytes} (hi : s0.actors i = withCaller fs pm ds fin)
     (h : Reach P s0 s) :
-    Phase ds (s.actors i) ∧ (s.actors i).hW = [.abort] ∧
+    Phase G ds (s.actors i) ∧ (s.actors i).hW = [.abort] ∧
       (s.actors i).hC = (withCaller fs pm ds fin).hC := by
   induction h with
   | init =>
-    rw [hi]; exact ⟨withCaller_phase _ _ _ _, (withCaller_cfg _ _ _ _).1, rfl⟩
+    rw [hi]; exact ⟨withCaller_phase _ _ _ _ _, (withCaller_cfg _ _ _ _).1, rfl⟩
   | step s j f hr ih =>
     obtain ⟨hph, hw, hc⟩ := ih
     by_cases hji : i = j
@@ -875,7 +1028,12 @@ theorem reach_with {P : Program} (hP : WB P) {s0 s : State} (h0 : Initial s0) (i
       rw [step_actor_self]
       have hcfg := actorStep_cfg P (s.actors i) s.fs.lock.isSome f
       have hwc : WithCfg (s.actors i) := ⟨hw, by rw [hc]; exact (withCaller_cfg _ _ _ _).2⟩
-      exact ⟨actorStep_Phase hP ds _ _ ((reach_Inv hP h0 hr).actors i) hwc hph,
+      have hG' : G → P.finallyAbort = true ∧ PreInTry (s.actors i) := by
+        intro g
+        have := hG g
+        simp only [Program.abortsOnAnyCloseFailure, Bool.and_eq_true] at this
+        exact ⟨this.1, reach_preInTry this.2 h0 hr i⟩
+      exact ⟨actorStep_Phase hP G ds _ _ ((reach_Inv hP h0 hr).actors i) hwc hG' hph,
         hcfg.1.trans hw, hcfg.2.trans hc⟩
     · rw [step_actor_other _ _ _ hji]; exact ⟨hph, hw, hc⟩
 
@@ -917,8 +1075,8 @@ def Failed (a : Actor) : Prop :=
   · exact abortInClose_inHandler_of _ _ _ h
   · simp
 
-theorem Phase.committed_none_of_failed {ds : List Bytes} {a : Actor} (hl : LInv a)
-    (h : Phase ds a) (hf : Failed a) : a.committed = none := by
+theorem Phase.committed_none_of_failed {G : Prop} {ds : List Bytes} {a : Actor} (hl : LInv a)
+    (h : Phase G ds a) (hf : Failed a) : a.committed = none := by
   cases h with
   | start _ _ _ _ hc => exact hc
   | writing _ _ _ _ _ _ _ _ hc _ => exact hc
